@@ -69,7 +69,7 @@ func amlSeg(name string) amlName { return amlName{Segs: []string{name}} }
 
 // amlData is a data object.
 type amlData struct {
-	K     string    `json:"k"` // zero one ones byte word dword qword string buffer package
+	K     string    `json:"k"` // zero one ones byte word dword qword string buffer package nameref
 	V     uint64    `json:"v,omitempty"`
 	S     []byte    `json:"s,omitempty"`     // string chars / buffer initialiser bytes
 	Elems []amlData `json:"elems,omitempty"` // package elements
@@ -238,6 +238,8 @@ func (d amlData) encode() []byte {
 		body := amlConst(amlBufLenKind(d.V), d.V)
 		body = append(body, d.bytes()...)
 		return append([]byte{0x11}, amlPkg(body, d.W)...)
+	case "nameref": // package element that names another object (S = the 4 character segment)
+		return append([]byte(nil), d.S...)
 	case "package":
 		body := []byte{byte(len(d.Elems))}
 		for _, e := range d.Elems {
